@@ -555,3 +555,36 @@ def comparison_guards(b, site_bb):
             op = _NEG[op]
         out.append((deep_path(b, a, at=sw), op, re.sub(r'_[iu](8|16|32|64|128|size)$', '', c.get('text', '')), sw, tgt))
     return out
+
+
+PT_CONV = make_pt(r'Into<U>>::into$', r'From<.*>>::from$', r'Clone>::clone$', r'ToOwned>::to_owned$', r'Deref>::deref$')
+
+
+def trace_to_entry(F, body, op, entries, depth=0):
+    """follow a value up to a parameter of one of the `entries` functions: through conversions (into / from / clone),
+    closure captures (to the function that builds the closure) and, for a private function with a single call site, to
+    the argument passed there.  Returns (entry path, parameter number) or None."""
+    if depth > 8 or body is None:
+        return None
+    roots = body.origins(op, passthrough=PT_CONV)
+    if len(roots) != 1:
+        return None
+    r = list(roots)[0]
+    if r[0] == 'upvar':
+        parent = F.body(body.parent) or F.dropped(body.parent)
+        if parent is None:
+            return None
+        lits = closure_sites(parent, body.path)
+        if len(lits) != 1 or r[1] >= len(lits[0][2]['rv']['ops']):
+            return None
+        return trace_to_entry(F, parent, lits[0][2]['rv']['ops'][r[1]], entries, depth + 1)
+    if r[0] == 'arg':
+        if body.kind == 'Closure':
+            return None     # a parameter of the closure itself (supplied by whoever calls it)
+        if body.path in entries:
+            return (body.path, r[1])
+        sites = [c for c in F.all_calls() if c.callee and (c.callee.best == body.path or c.callee.resolved == body.path)]
+        if len(sites) != 1 or r[1] - 1 >= len(sites[0].args):
+            return None
+        return trace_to_entry(F, sites[0].body, sites[0].args[r[1] - 1], entries, depth + 1)
+    return None
